@@ -213,7 +213,7 @@ def run(ctx):
     h = C.build_harness(impl, *c01.HARNESS[:2], exclude=c01.HARNESS[2])
     drv = C.drv_path() if drv_ok else None
     explore(ctx, h, drv, 120 if ctx.tier == "quick" else 2000, "main")
-    if ctx.proof_broken or ctx.corr_broken:
+    if (ctx.proof_broken or ctx.corr_broken) and not ctx.violations:
         for i in range(3):
             explore(ctx, h, drv, 150, "search%d" % i)
 
